@@ -124,6 +124,10 @@ def build_harness(name, runtime=False, extra_defs=(), extra_srcs=(), cc="gcc", l
     """Build harness/<name>.c against /repo's working tree with compiler instrumentation and
     link it with our TSan-ABI runtime.  runtime=True also compiles the whole library
     (pinned flags incl. -fsplit-stack).  Returns the executable path."""
+    if runtime and not any(os.path.basename(x).startswith("wrap_fiber_scheduler_wsd") for x in extra_srcs):
+        # every whole-runtime build carries the scheduler wrapper: it names the run queues
+        # (Q<k>a / Q<k>b) so the runtime model Rt can follow any runtime harness's log
+        extra_srcs = tuple(extra_srcs) + ("wrap_fiber_scheduler_wsd.c",)
     hsrc = os.path.join(VERIF, "harness", name + ".c")
     hfiles = [hsrc, os.path.join(VERIF, "harness", "common.h"), os.path.join(VERIF, "harness", "rtcommon.h")]
     hfiles += [os.path.join(VERIF, "harness", s) for s in extra_srcs]
